@@ -28,10 +28,11 @@ import (
 // both corpus modes x every sort x limits.
 
 func runSpecialWorldsC08(r *ev.Run) {
-	n := r.Pick(1, 4)
-	for k := 0; k < n; k++ {
-		runSpecialWorldC08(r, fmt.Sprintf("world-epoch%d;", k), fmt.Sprintf("ep%d", k), worldOpts{epoch: true}, 22+4*k, k%2 == 1)
-		runSpecialWorldC08(r, fmt.Sprintf("world-far%d;", k), fmt.Sprintf("fd%d", k), worldOpts{far: true}, 30+4*k, false)
+	for k := 0; k < r.Pick(2, 6); k++ {
+		runSpecialWorldC08(r, fmt.Sprintf("world-epoch%d;", k), fmt.Sprintf("ep%d", k), worldOpts{epoch: true}, 26+3*k, k%2 == 0)
+	}
+	for k := 0; k < r.Pick(1, 4); k++ {
+		runSpecialWorldC08(r, fmt.Sprintf("world-far%d;", k), fmt.Sprintf("fd%d", k), worldOpts{far: true}, 36+4*k, false)
 	}
 	r.Require("world_features", "epoch/date-attr-at-or-next-to-unix-epoch", "epoch/camliContent-file-with-modtime-0",
 		"created-time/exactly-unix-epoch", "created-time/exactly-unix-epoch-in-non-UTC-notation", "created-time/within-the-epoch-second",
